@@ -627,3 +627,5 @@ def plan(tier):
         "shrink": "ddmin",
         "budget_s": 150 if quick else 1500,
     }
+
+RULE += (' Also: a server stanza of 5000..200000 bytes delivered in socket-sized reads; handshake-reply damage generated as (field, position, bit pattern), truncation or extension of a field or of the serialised message; after every reported handshake failure a further login must succeed; cut kind closed_at_once (the peer closes the connection the moment it is up, the next login follows at once) with a complete single-preemption sweep.')
